@@ -34,11 +34,12 @@ Definition model_C06 (i:c06_in) : c06_out :=
    loudly; that is outside the property ("running the upgrade" presupposes it runs) *)
 Definition batch_only (o:op) : bool :=
   match o with
-  | OpAlterColumn _ _ _ _ _ _ => true
+  | OpAlterColumn _ _ _ _ _ _ _ _ => true
   | OpAddCons _ (Uq _ _) => true
   | OpDropCons _ false _ => true
   | OpDropColumn _ _ => true
-  | OpAddColumn _ c => negb (c_null c) || c_pk c
+  | OpAddColumn _ c => negb (c_null c) || c_pk c || match c_default c with Some (DExpr _) => true | _ => false end
+  | OpAddFk _ _ | OpDropFk _ _ => true
   | _ => false
   end.
 
@@ -61,8 +62,6 @@ Definition check_C06 (i:c06_in) (o:c06_out) : bool :=
   list_eqb cfg_eqb (map r_cfg (o_runs o)) all_cfgs && forallb run_holdsb (o_runs o).
 
 (* ---------------------------------------------------------------- exact comparison with the model *)
-Definition opt_eqb {A} (e:A->A->bool) (a b:option A) : bool :=
-  match a, b with Some x, Some y => e x y | None, None => true | _, _ => false end.
 (* multiset equality by removing matches one at a time *)
 Fixpoint remove_first {A} (e:A->A->bool) (x:A) (l:list A) : option (list A) :=
   match l with
@@ -76,15 +75,19 @@ Fixpoint mset_eqb {A} (e:A->A->bool) (a b:list A) : bool :=
   end.
 (* tables of a schema as a set; columns of a table in order; constraints and indexes as a set *)
 Definition table_equiv (a b:table) : bool :=
-  N.eqb (t_name a) (t_name b) && list_eqb col_eqb (t_cols a) (t_cols b) && mset_eqb cons_eqb (t_cons a) (t_cons b).
+  N.eqb (t_name a) (t_name b) && list_eqb col_eqb (t_cols a) (t_cols b) && mset_eqb cons_eqb (t_cons a) (t_cons b)
+  && mset_eqb fk_eqb (t_fks a) (t_fks b).
 Definition op_eqb (a b:op) : bool :=
   match a, b with
   | OpCreateTable t, OpCreateTable t' => table_equiv t t'     (* Table.constraints is a set *)
   | OpDropTable t, OpDropTable t' => N.eqb t t'
   | OpAddColumn t c, OpAddColumn t' c' => N.eqb t t' && col_eqb c c'
   | OpDropColumn t c, OpDropColumn t' c' => N.eqb t t' && N.eqb c c'
-  | OpAlterColumn t c en et mn mt, OpAlterColumn t' c' en' et' mn' mt' =>
-      N.eqb t t' && N.eqb c c' && Bool.eqb en en' && ty_eqb et et' && opt_eqb Bool.eqb mn mn' && opt_eqb ty_eqb mt mt'
+  | OpAlterColumn t c en et ed mn mt md, OpAlterColumn t' c' en' et' ed' mn' mt' md' =>
+      N.eqb t t' && N.eqb c c' && Bool.eqb en en' && ty_eqb et et' && opt_eqb dflt_eqb ed ed'
+      && opt_eqb Bool.eqb mn mn' && opt_eqb ty_eqb mt mt' && opt_eqb (opt_eqb dflt_eqb) md md'
+  | OpAddFk t f, OpAddFk t' f' => N.eqb t t' && fk_eqb f f'
+  | OpDropFk t n, OpDropFk t' n' => N.eqb t t' && N.eqb n n'
   | OpAddCons t k, OpAddCons t' k' => N.eqb t t' && cons_eqb k k'
   | OpDropCons t i n, OpDropCons t' i' n' => N.eqb t t' && Bool.eqb i i' && N.eqb n n'
   | _, _ => false
@@ -92,7 +95,8 @@ Definition op_eqb (a b:op) : bool :=
 Definition schema_equiv (a b:schema) : bool := mset_eqb table_equiv a b.
 (* after an upgrade the order of columns is not part of the observable (batch mode rebuilds tables) *)
 Definition table_equiv_u (a b:table) : bool :=
-  N.eqb (t_name a) (t_name b) && mset_eqb col_eqb (t_cols a) (t_cols b) && mset_eqb cons_eqb (t_cons a) (t_cons b).
+  N.eqb (t_name a) (t_name b) && mset_eqb col_eqb (t_cols a) (t_cols b) && mset_eqb cons_eqb (t_cons a) (t_cons b)
+  && mset_eqb fk_eqb (t_fks a) (t_fks b).
 Definition schema_equiv_u (a b:schema) : bool := mset_eqb table_equiv_u a b.
 Definition ops_equiv (a b:list op) : bool := mset_eqb op_eqb a b.
 
@@ -118,6 +122,15 @@ Fixpoint sigs_distinct (ks:list cons) : bool :=
   | [] => true
   | k :: r => negb (existsb (fun k' => permb (k_cols k) (k_cols k')) r) && sigs_distinct r
   end.
+(* side condition of the property text: no table dropped by A -> B is still referenced by a foreign key of a table of A that
+   stays (autogenerate emits drop_table before the operations on existing tables; batch mode cannot reflect a table whose
+   referred table is gone) *)
+Definition no_dangling_fk (A B:schema) : bool :=
+  forallb (fun t => negb (memN (t_name t) (keys t_name B)) || forallb (fun f => memN (f_rtable f) (keys t_name B)) (t_fks t)) A.
+(* no two foreign keys of a table with the same (columns, referred table, referred columns) *)
+Fixpoint fk_sigs_distinct (fs:list fk) : bool :=
+  match fs with [] => true | f :: r => negb (existsb (fk_sig_eqb f) r) && fk_sigs_distinct r end.
 Definition inclass_C06 (i:c06_in) : bool :=
-  wf_schemab (fst i) && wf_schemab (snd i)
+  no_dangling_fk (fst i) (snd i) && forallb (fun t => fk_sigs_distinct (t_fks t)) (fst i) && forallb (fun t => fk_sigs_distinct (t_fks t)) (snd i) &&
+  wf_schemab (fst i) && wf_schemab (snd i) && defaults_ok (fst i) && defaults_ok (snd i)
   && forallb (fun t => sigs_distinct (t_cons t)) (fst i) && forallb (fun t => sigs_distinct (t_cons t)) (snd i).
